@@ -79,12 +79,20 @@ theorem inv_after_posts (hc : c.ok = true) {σC σIL : MState} (hinv : Inv c σC
       rw [← e, hnt] at this; cases this
     · rw [postVar_postPend] at e
       exact e ▸ List.mem_map_of_mem (f := (·.1)) (List.mem_of_getElem? hj)
-  refine ⟨⟨?_, ?_, ?_, ?_, ?_, ?_, ?_, ?_⟩, ⟨?_, ?_, ?_⟩, ?_⟩
+  have himmloc : ∀ l ∈ c.imms, lookupS l locals' = lookupS l σIL.locals := by
+    intro l hl
+    have hlt := (Ctx.ok_imms hc hl).1
+    have hlp : l ∉ posts.map (·.1) := by
+      intro hm
+      obtain ⟨q, hq, rfl⟩ := List.mem_map.mp hm
+      obtain ⟨t', ht'⟩ := hdecl q hq
+      exact (hnotTmpDecl ht').2 hl
+    exact huntouched l hlt hlp
+  refine ⟨⟨?_, ?_, ?_, ?_, ?_, ?_, ?_⟩, ⟨?_, ?_, ?_⟩, ?_, ?_, ?_⟩
   · rw [f1]; exact hinv.rel.cur
   · rw [f2]; exact hinv.rel.new
   · rw [f3]; exact hinv.rel.written
   · rw [f4]; exact hinv.rel.mem
-  · rw [f5]; exact hinv.rel.imm
   · rw [f6]; exact hinv.rel.pktAddr
   · rw [f7]; exact hinv.rel.stores
   · -- locals
@@ -133,16 +141,14 @@ theorem inv_after_posts (hc : c.ok = true) {σC σIL : MState} (hinv : Inv c σC
       exact hinv.inv.typed _ _ _ hn hv
   · -- imms
     intro l hl
-    have hlt := (Ctx.ok_imms hc hl).1
-    have hlp : l ∉ posts.map (·.1) := by
-      intro hm
-      obtain ⟨q, hq, rfl⟩ := List.mem_map.mp hm
-      obtain ⟨t', ht'⟩ := hdecl q hq
-      exact (hnotTmpDecl ht').2 hl
-    show lookupS l locals' = _
-    rw [huntouched l hlt hlp]
-    exact hinv.inv.imms l hl
+    obtain ⟨x, hx⟩ := hinv.inv.imms l hl
+    exact ⟨x, by show lookupS l locals' = _; rw [himmloc l hl]; exact hx⟩
   · exact hinv.inv.srcs
+  · -- immVal
+    intro l hl
+    show lookupS l locals' = _
+    rw [himmloc l hl, f5]
+    exact hinv.immVal l hl
   · -- tmpFree
     intro n hn
     have hnp : n ∉ posts.map (·.1) := by
@@ -152,6 +158,15 @@ theorem inv_after_posts (hc : c.ok = true) {σC σIL : MState} (hinv : Inv c σC
       rw [(hnotTmpDecl ht').1] at hn; cases hn
     rw [applyPosts_lookup_ne posts σC hnp]
     exact hinv.tmpFree n hn
+  · -- immFresh
+    intro l hl
+    have hlp : l ∉ posts.map (·.1) := by
+      intro hm
+      obtain ⟨q, hq, rfl⟩ := List.mem_map.mp hm
+      obtain ⟨t', ht'⟩ := hdecl q hq
+      exact (hnotTmpDecl ht').2 hl
+    rw [applyPosts_lookup_ne posts σC hlp]
+    exact hinv.immFresh l hl
 
 end
 
@@ -162,7 +177,7 @@ def TmpsTyped (k : Nat) (posts : List (String × CT × String)) (σ : MState) : 
 /-- The well-formedness `WF` of the expression theorem holds for the translated right-hand side in every
     IL-side state that satisfies the invariant and binds the temporaries at the right widths. -/
 def WFHypT (ms : MacroSem) (WF : MState → CExpr → Prop) (c : Ctx) (k : Nat) (e : CExpr) : Prop :=
-  ∀ σ vC, SInv c σ → TmpsTyped k (postsOf e) σ → evalC ms σ (unhyb k e) = .ok vC → WF σ (unhyb k e)
+  ∀ σ vC, SInv c σ → ImmsCur c σ → TmpsTyped k (postsOf e) σ → evalC ms σ (unhyb k e) = .ok vC → WF σ (unhyb k e)
 
 section
 variable {ms : MacroSem} {WF : MState → CExpr → Prop} (hE : C05.ExprOK ms WF)
@@ -248,8 +263,9 @@ theorem rhs_sim {st s1 : HSt} {e : CExpr} {c1 : CE} (hst : st.pending = [])
       exact List.eq_nil_of_length_eq_zero this.symm
     · rw [h2]; exact hrest
   · -- the value
-    have hext : Ext st.hyb (readVars e) (postsOf e) σC { σIL with locals := locals' } := by
-      refine ⟨hinv.rel.cur.symm, hinv.rel.new.symm, hinv.rel.written.symm, hinv.rel.mem.symm, hinv.rel.imm.symm,
+    -- the expression theorem is applied in the IL-side state seen with the C side's current immediates
+    have hext : Ext st.hyb (readVars e) (postsOf e) σC { σIL with locals := locals', imm := σC.imm } := by
+      refine ⟨hinv.rel.cur.symm, hinv.rel.new.symm, hinv.rel.written.symm, hinv.rel.mem.symm, rfl,
         hinv.rel.pktAddr.symm, ?_, ?_⟩
       · intro n hn v hv
         show lookupS n locals' = some v
@@ -274,7 +290,7 @@ theorem rhs_sim {st s1 : HSt} {e : CExpr} {c1 : CE} (hst : st.pending = [])
         rw [this]
         exact hinv.rel.locals _ _ hv
     have hC := hevalC st.hyb _ hext
-    have htt : TmpsTyped st.hyb (postsOf e) { σIL with locals := locals' } := by
+    have htt : TmpsTyped st.hyb (postsOf e) { σIL with locals := locals', imm := σC.imm } := by
       intro j q hj
       have hm : postPend (st.hyb + j) q.1 q.2.1 q.2.2 ∈ chkPopped s1 base [] :=
         hperm.symm.subset (mem_postPendsFrom.mpr ⟨j, q, hj, rfl⟩)
@@ -282,10 +298,17 @@ theorem rhs_sim {st s1 : HSt} {e : CExpr} {c1 : CE} (hst : st.pending = [])
       have h1 := (hres _ hm).1
       rw [postVar_postPend, hl'] at h1
       exact ⟨x, h1⟩
-    obtain ⟨vIL, h1, h2, h3⟩ := hE _ env (unhyb st.hyb e) c1 v1 henv
-      (hWF _ v1 hinv1.inv htt hC) hC hA.plain
+    have himm1 : ImmsCur c { σIL with locals := locals', imm := σC.imm } := by
+      intro l hl
+      have := hinv1.immVal l hl
+      rw [(applyPosts_fields (postsOf e) σC).2.2.2.2.1] at this
+      exact this
+    obtain ⟨vIL, h1, h2, h3⟩ := hE { σIL with locals := locals', imm := σC.imm } env (unhyb st.hyb e) c1 v1 henv
+      (hWF _ v1 (hinv1.inv.withImm _) himm1 htt hC) hC hA.plain
+    have h1' : evalPure ms { σIL with locals := locals' } [] c1.il = .ok vIL := by
+      rw [← ImmFree.evalPure_compileExpr_withImm hA.plain ms { σIL with locals := locals' } σC.imm]; exact h1
     rw [typeOfC_unhyb e st.hyb hfrag] at h3
-    exact ⟨vIL, h1, h2, h3⟩
+    exact ⟨vIL, h1', h2, h3⟩
 
 omit hE hc in
 theorem gccSrc_fixed (t : CT) (c1 : CE) : gccSrc env.cfg t c1 = initACast Cfg.fixed t.toVT c1 := by
